@@ -221,7 +221,7 @@ def main():
         R.count(cs.split("|")[1])
         for key, what in fails:
             R.fail(key, what, cs)
-        if not fails and i % 997 == 0:
+        if not fails and i % 997 == 500:
             R.sample("%s -> %s" % (cs, sig))
     R.write(a.out)
 
